@@ -117,6 +117,7 @@ class as_pixels:
                 inv={"shape": "pixel_grid.shape == (2 * R + 1, 2 * C + 1, 3)", "between-so-far": _img(_colour(_N, "_k", endpoints=False), "pixel_grid")}),
     }
     result = lambda env: T.GridT("int", [2 * env["R"] + 1, 2 * env["C"] + 1, 3])
+    pure_result = True
     props = ["C10", "C17"]
 
 
